@@ -78,6 +78,8 @@ SubLeaves ==
                    SubDef(<<"X", "_", "1">>, FALSE, Conn("P", <<Default(SymR), Default(SymC)>>))}}
     \cup {[Default(SymTlm) EXCEPT !.subs[5] = SubDef(<<"Z", "e", "t", "a">>, FALSE, Conn("S", <<Default(SymR), Default(SymQ)>>)), !.label = <<"z">>,
                                    !.ps[1] = PDef(<<"L">>, Dec(FALSE, 1, -24), Dec(FALSE, 25, -1), PInf, TRUE)]}
+    \* L is fixed by default: a definition without the F flag must free it (and stay free through serialise + parse)
+    \cup {[Default(SymTlm) EXCEPT !.ps[1] = PDef(<<"L">>, Dec(FALSE, 1, -24), v, PInf, FALSE)] : v \in {Dec(FALSE, 1, 0), Dec(FALSE, 25, -1)}}
 
 SpecialLeaves ==
     CASE Focus = "shapes" -> {}
